@@ -55,7 +55,28 @@ def gen_history(rng):
     return {'pre_isa': [], 'pre_cli': [], 'before': before, 'body': body, 'kinds': sorted(kinds)}
 
 
+def gen_quoted(rng):
+    """replacement texts that are quoted literals with backslash escapes: the text reaches the line verbatim (a backslash in
+    it is not a regular-expression template escape, not a group reference)"""
+    kinds = {'quoted-replacement'}
+    texts = ['"C:\\\\tmp"', '"a\\tb"', '"x\\\\y\\\\z"', "'\\\\'", '"\\x41\\x42"', '"q\\\\1"', '"tab\\there"', '"plain"', '"\\\\g<0>"',
+             '"nl\\n"']
+    names = rng.sample(['STR_A', 'STR_B', 'PATHX'], rng.randint(1, 2))
+    body = []
+    for n in names:
+        body.append(('define', n, rng.choice(texts)))
+    if len(names) == 2 and rng.random() < 0.4:
+        body.append(('define', 'BOTH', f'{names[0]}'))
+        names.append('BOTH')
+    for _ in range(rng.randint(1, 3)):
+        n = rng.choice(names)
+        body.append(('line', rng.choice(['.cstr ', '.byte ', '.asciiz ']) + n))
+    return {'pre_isa': [], 'pre_cli': [], 'before': [], 'body': body, 'kinds': sorted(kinds)}
+
+
 def gen_case(rng, tier):
+    if rng.random() < 0.12:
+        return gen_quoted(rng)
     if rng.random() < 0.3:
         return gen_history(rng)
     names = rng.sample(BASES, rng.randint(1, 5))
